@@ -587,7 +587,15 @@ func sendCommands(e *Env) {
 	if len(talkers) > 0 {
 		simrt.BlockFor("send", "talkers", 6*time.Hour, func() bool { return talkDone == len(talkers) })
 		s.c.Raw("MARK end")
-		if !simrt.BlockFor("send", "the final marker", 6*time.Hour, func() bool { return len(s.lines) > 0 && s.lines[len(s.lines)-1] == "MARK end" }) {
+		endMarked := func() bool {
+			for i := len(s.lines) - 1; i >= 0 && i >= len(s.lines)-400; i-- {
+				if s.lines[i] == "MARK end" {
+					return true
+				}
+			}
+			return false
+		}
+		if !simrt.BlockFor("send", "the final marker", 6*time.Hour, endMarked) {
 			e.Violation("stuck", "the concurrent callers' lines did not all reach the server\n%s", e.S.TaskDump())
 			return
 		}
